@@ -645,6 +645,9 @@ class RowReordering {
   std::vector<std::vector<int> > bestOrder_;
   std::vector<std::vector<int> > bestPositions_;
   bool improvement_;
+#ifdef COLOQUINTE_VERIF
+  long long verifNbLeaves_ = 0;
+#endif
 };
 
 RowReordering::RowReordering(DetailedPlacement &placement, IncrNetModel &xtopo,
@@ -712,6 +715,28 @@ void RowReordering::run() {
   std::sort(cells_.begin(), cells_.end(), std::greater<int>());
   runRegionChoice(cells_.size() - 1);
   writeback();
+#ifdef COLOQUINTE_VERIF
+  if (verif::onDetailedOp != nullptr) {
+    std::vector<int> verifArgs;
+    verifArgs.push_back((int)cells_.size());
+    for (int c : cells_) {
+      verifArgs.push_back(c);
+    }
+    verifArgs.push_back(nbRegions());
+    for (const ReorderingRegion &region : regions_) {
+      verifArgs.push_back(region.row);
+      verifArgs.push_back(region.cellPred);
+      verifArgs.push_back(region.cellNext);
+      verifArgs.push_back(region.minPos);
+      verifArgs.push_back(region.maxPos);
+    }
+    verifArgs.push_back((int)verifNbLeaves_);
+    verifArgs.push_back(improvement_ ? 1 : 0);
+    verifArgs.push_back((int)(bestVal_ >> 31));
+    verifArgs.push_back((int)(bestVal_ & 0x7fffffffLL));
+    verif::onDetailedOp("h_window", verifArgs.data(), (int)verifArgs.size());
+  }
+#endif
 }
 
 void RowReordering::runRegionChoice(int cellInd) {
@@ -740,6 +765,9 @@ void RowReordering::runRegionChoice(int cellInd) {
 void RowReordering::runOrdering(int rowInd) {
   if (rowInd < 0) {
     // Leaf case: evaluate
+#ifdef COLOQUINTE_VERIF
+    ++verifNbLeaves_;
+#endif
     long long value = xtopo_.value() + ytopo_.value();
     if (value < bestVal_) {
       bestVal_ = value;
